@@ -858,7 +858,12 @@ impl<T: Transport, Env: UtpEnvironment> VirtualSocket<T, Env> {
         while remaining > 0 && remote_window_remaining > 0 {
             let ss = self.segment_sizes.next_segment_size();
             let min_ss = self.segment_sizes.mss();
-            let max_payload_size = (ss as usize).min(remote_window_remaining);
+            // An MTU probe larger than the congestion window could never be sent, and as nothing
+            // else can be segmented behind it, the stream would stall forever.
+            let ss = (ss as usize)
+                .min(self.congestion_controller.window())
+                .max(min_ss as usize);
+            let max_payload_size = ss.min(remote_window_remaining);
             let payload_size = max_payload_size.min(remaining);
 
             // Run Nagle algorithm to prevent sending too many small segments.
